@@ -24,7 +24,7 @@ var apiNames = map[string]bool{
 	"vAssume": true, "vAssert": true, "vCover": true, "vObserve": true, "vObserveInt": true, "vFail": true,
 	"vIsSymbolic": true, "vEqStr": true, "vUint64": true, "vMapOrder": true, "vSteps": true,
 	"vfsReset": true, "vfsWriteFile": true, "vfsMkdir": true, "vfsDangling": true, "vfsCwd": true, "vfsUnreadable": true,
-	"vFreeze": true, "vSharedWrites": true, "vSharedAtomicConflicts": true, "vNative": true, "vParam": true,
+	"vFreeze": true, "vShare": true, "vSharedWrites": true, "vSharedAtomicConflicts": true, "vPhase": true, "vPhaseConflicts": true, "vNative": true, "vParam": true,
 }
 
 func (in *Interp) classify(fn *ssa.Function, fi *fnInfo) {
@@ -147,10 +147,25 @@ func (in *Interp) callAPI(caller *frame, api string, fn *ssa.Function, args []Va
 	case "vFreeze":
 		in.freeze()
 		return nil
+	case "vShare":
+		if in.frozen == nil {
+			in.freeze()
+		}
+		in.freezeVal(args[0])
+		return nil
 	case "vSharedWrites":
 		return int64(len(in.sharedWrites))
 	case "vSharedAtomicConflicts":
 		return int64(len(in.atomicConflicts()))
+	case "vPhase":
+		in.phase = int(args[0].(int64))
+		return nil
+	case "vPhaseConflicts":
+		c := in.phaseConflicts()
+		if len(c) > 0 && in.path != nil {
+			in.path.Notes = append(in.path.Notes, c...)
+		}
+		return int64(len(c))
 	}
 	panic("unknown harness API " + api)
 }
@@ -390,6 +405,35 @@ func init() {
 		copy(buf, b)
 		r := in.callFunction(caller, m, []Value{w.V, buf}, nil)
 		return r
+	}
+	intrinsics["fmt.Fprintln"] = func(in *Interp, caller *frame, fn *ssa.Function, args []Value) Value {
+		var out Value = ""
+		for i, a := range args[1].([]Value) {
+			if i > 0 {
+				out = strConcat(out, " ")
+			}
+			out = strConcat(out, in.formatV(a.(Iface), 'v'))
+		}
+		out = strConcat(out, "\n")
+		w := args[0].(Iface)
+		if w.T == nil {
+			in.throwNilDeref()
+		}
+		m := in.lookupMethod(w.T, "Write")
+		b := strBytes(out)
+		buf := make([]Value, len(b))
+		copy(buf, b)
+		return in.callFunction(caller, m, []Value{w.V, buf}, nil)
+	}
+	intrinsics["fmt.Sprintln"] = func(in *Interp, caller *frame, fn *ssa.Function, args []Value) Value {
+		var out Value = ""
+		for i, a := range args[0].([]Value) {
+			if i > 0 {
+				out = strConcat(out, " ")
+			}
+			out = strConcat(out, in.formatV(a.(Iface), 'v'))
+		}
+		return strConcat(out, "\n")
 	}
 	intrinsics["fmt.Fprintf"] = func(in *Interp, caller *frame, fn *ssa.Function, args []Value) Value {
 		out := in.sprintf(args[1], args[2].([]Value))
